@@ -65,10 +65,19 @@ Proof.
   unfold bmin. destruct (N.ltb_spec (tmax u1) (tmax u2)); lia.
 Qed.
 
+Lemma product_ranges_r : ranges_ok b -> ranges_ok (ires st).
+Proof.
+  intros Hr x Ix t It. destruct (In_nth_n _ _ Ix) as [id Nx].
+  destruct (j_sound _ _ _ Hj _ _ _ Nx It) as (k1 & k2 & y1 & y2 & u1 & u2 & _ & _ & Ny2 & _ & I2 & O & _ & E).
+  destruct (Hr y2 (nth_n_In _ _ _ Ny2) u2 I2) as [_ R2].
+  rewrite E. unfold edge_of. cbn [tmin tmax]. split; [exact O|].
+  unfold bmin. destruct (N.ltb_spec (tmax u1) (tmax u2)); lia.
+Qed.
+
 End Sim.
 
 Theorem intersect_exact a b : wf a -> wf b -> nlen a * nlen b <= 65536 ->
-  exists i, intersect a b = Ok i /\ wf i /\ (ranges_ok a -> ranges_ok i)
+  exists i, intersect a b = Ok i /\ wf i /\ (ranges_ok a \/ ranges_ok b -> ranges_ok i)
             /\ forall s, matchp i s = Ok (accepts a 0 s && accepts b 0 s).
 Proof.
   intros Hwa Hwb Hsize.
@@ -96,7 +105,8 @@ Proof.
   { intros x Ix. apply Hall. apply in_or_app. left; exact Ix. }
   assert (Hne : imap st <> []) by (intro C; specialize (X _ Hid0); rewrite C in X; destruct X).
   pose proof (product_wf a b st Hj Hne) as Hwi.
-  split; [reflexivity|]. split; [exact Hwi|]. split; [exact (product_ranges a b st Hj)|].
+  split; [reflexivity|]. split; [exact Hwi|].
+  split; [intros [Hr|Hr]; [exact (product_ranges a b st Hj Hr)|exact (product_ranges_r a b st Hj Hr)]|].
   intro s. rewrite matchp_accepts by exact Hwi. f_equal.
   exact (sim a b st Hj Hall' s 0 0 0 (X _ Hid0)).
 Qed.
@@ -108,5 +118,16 @@ Corollary intersect_match a b : wf a -> wf b -> nlen a * nlen b <= 65536 ->
 Proof.
   intros Hwa Hwb Hsize. destruct (intersect_exact a b Hwa Hwb Hsize) as (i & E & _ & _ & H).
   exists i. split; [exact E|]. intro s. exists (accepts a 0 s), (accepts b 0 s).
+  split; [apply matchp_accepts; exact Hwa|]. split; [apply matchp_accepts; exact Hwb|apply H].
+Qed.
+
+(* the form stated in Props/C13.v *)
+Theorem intersect_exact_match a b : wf a -> wf b -> nlen a * nlen b <= 65536 ->
+  exists i, intersect a b = Ok i /\ wf i /\ (ranges_ok a \/ ranges_ok b -> ranges_ok i) /\
+    forall s, exists x y, matchp a s = Ok x /\ matchp b s = Ok y /\ matchp i s = Ok (x && y).
+Proof.
+  intros Hwa Hwb Hsize. destruct (intersect_exact a b Hwa Hwb Hsize) as (i & E & W & R & H).
+  exists i. split; [exact E|]. split; [exact W|]. split; [exact R|].
+  intro s. exists (accepts a 0 s), (accepts b 0 s).
   split; [apply matchp_accepts; exact Hwa|]. split; [apply matchp_accepts; exact Hwb|apply H].
 Qed.
